@@ -26,8 +26,9 @@ pub fn failing(m: &Mor) -> (BTreeSet<char>, bool, bool) {
     let mut fail = BTreeSet::new();
     let w_typed = m.w.0.len() == g.w.len() && m.w.1 == h.w.len();
     let x_typed = m.x.0.len() == g.e.len() && m.x.1 == h.e.len();
-    let w_cod_wrong = m.w.1 != h.w.len();
-    let x_cod_wrong = m.x.1 != h.e.len();
+    // "type mismatch" = the map's domain or codomain size really is wrong
+    let w_cod_wrong = m.w.1 != h.w.len() || m.w.0.len() != g.w.len();
+    let x_cod_wrong = m.x.1 != h.e.len() || m.x.0.len() != g.e.len();
     if !w_typed || (0..g.w.len()).any(|i| g.w[i] != h.w[m.w.0[i]]) {
         fail.insert('W');
     }
